@@ -101,13 +101,16 @@ def _same_state(net, ref, probe_keys, tag):
 
 def _apply(net, ref, log, op, tag, i=0):
     cid = sx.fresh_int("id%d" % i, 0, ID_MAX)
+    fixed = None
+    if ":" in op:                                   # "subscribe:1": the callback is given, only the id is symbolic
+        op, fixed = op.split(":")[0], int(op.split(":")[1])
     if op == "subscribe":
-        c = sx.choice(3, "cb%d" % i)
+        c = sx.choice(3, "cb%d" % i) if fixed is None else fixed
         net.subscribe(cid, log.cbs[c])
         ref.subscribe(cid, log.cbs[c])
         sx.reach("op-subscribe")
     elif op in ("unsubscribe_cb", "unsubscribe_all"):
-        c = sx.choice(3, "cb%d" % i) if op == "unsubscribe_cb" else None
+        c = (sx.choice(3, "cb%d" % i) if fixed is None else fixed) if op == "unsubscribe_cb" else None
         snapshot = [(k, list(l)) for k, l in zip(ref.keys, ref.lists)]
         try:
             if c is None:
@@ -174,6 +177,20 @@ def history(k, first):
         ids.append(_apply(net, ref, log, op, "C10/history", i))
         _same_state(net, ref, ids, "C10/history")
     sx.reach("history")
+
+
+def scripted_history(ops):
+    """longer histories than the exhaustive ones: the operations are fixed, ids (which of them coincide) and callbacks
+    stay symbolic - e.g. a callback removed by the one-callback form (an empty list stays behind), traffic on that id
+    while nobody listens, a new subscription, traffic again"""
+    net = _net()
+    log = Log()
+    ref = RefMap()
+    ids = []
+    for i, op in enumerate(ops):
+        ids.append(_apply(net, ref, log, op, "C10/scripted", i))
+        _same_state(net, ref, ids, "C10/scripted")
+    sx.reach("scripted-history")
 
 
 # ---- nodes ---------------------------------------------------------------------------------------
@@ -493,6 +510,9 @@ def jobs(tier):
     for k in range(1, kmax + 1):
         for first in OPS:
             out.append(dict(func="history", params=dict(k=k, first=first), weight=10 ** k))
+    for ops in (["subscribe:0", "unsubscribe_cb:0", "notify", "subscribe:1", "notify"],
+                ["subscribe:2", "unsubscribe_all", "notify", "subscribe:2", "notify"]):
+        out.append(dict(func="scripted_history", params=dict(ops=ops), weight=5000))
     for old in ("remote", "local"):
         out.append(dict(func="node_replace", params=dict(old_kind=old, action="same", nid=4)))
         for action in ("delete", "remote", "local"):
@@ -540,7 +560,7 @@ META = dict(
                     "tables with more than 2 ids in the step (uniform code)"],
     assumptions=[],
     stubs=["can (recording model)", "dict displays -> SymDict", "threading.Lock", "queue", "logging"],
-    required_reach=["step", "op-subscribe", "op-unsubscribe", "op-unsubscribe-missing", "op-notify", "history",
+    required_reach=["scripted-history", "step", "op-subscribe", "op-unsubscribe", "op-unsubscribe-missing", "op-notify", "history",
                     "node-delete", "node-remote", "node-local", "node-extra-channel", "node-same", "outgoing", "outgoing-update", "concurrent-send", "odd-callbacks", "listener", "scanner"],
     limits=dict(quick=dict(max_decisions=20000), thorough=dict(max_decisions=20000, job_timeout_s=3000)),
     validate_every=dict(quick=11, thorough=101),
